@@ -139,6 +139,9 @@ class Ctx:
         sys.exit(0)
 
     def cleanup(self):
+        if os.environ.get("VERIF_KEEP"):
+            print("kept scratch:", self.scratch)
+            return
         shutil.rmtree(self.scratch, ignore_errors=True)
 
     # ---------------------------------------------------------------- TLC
@@ -201,6 +204,8 @@ class Ctx:
         self.cov["transitions"] += gen
         if rc == 124:
             raise Broken("TLC timeout on %s/%s" % (module, cfgfile))
+        if rc == 10 and expect_violation and "Postcondition" in out:
+            return res  # trace rejected (POSTCONDITION false)
         if rc != 0 and not (expect_violation and rc in (12, 13)) and not simulate:
             raise Broken("TLC failed rc=%d on %s/%s:\n%s" % (rc, module, cfgfile, out[-3000:]))
         if simulate and rc not in (0,):
